@@ -93,6 +93,13 @@ KANI_UNITS["ov_pipes"] = {
     "bounded": {r"_trace$": "trace of <= 5 calls from the initial state", r"_loop$": "internal loop unwound: <= 3 skipped items / inner length <= 3"},
 }
 
+KANI_UNITS["ov_sink"] = {
+    "mode": "overlay", "crate": "contracts/kani/ov_sink", "package": "sinktools", "prefix": "sinktools/src", "props": ["C14"],
+    "what": "sinktools compiled in place; harness child modules appended to each adaptor's file; havoc downstream sinks (incl. errors)",
+    "instantiation": "Item = u8, havoc sinks answering Ready(Ok)/Pending/Ready(Err) on every poll; loop-free per-method contracts => complete for the instantiation",
+    "bounded": {r"_loop$": "internal loop unwound: <= 3 buffered / iterator items"},
+}
+
 # property -> list of (engine, unit, harness filters or None, tiers)
 PROPS = {
     "C01": [("verus", "lat_ord"), ("verus", "lat_wrap"), ("verus", "lat_pair"), ("verus", "lat_dom"),
@@ -116,6 +123,8 @@ PROPS["C11"] = [("kani", "ov_pipes", ["pull::"], ("quick", "thorough"))]
 
 PROPS["C12"] = [("kani", "ov_pipes", ["push::", "pull::send_push", "pull::send_sink"], ("quick", "thorough"))]
 
+PROPS["C14"] = [("kani", "ov_sink", ["vk_harness"], ("quick", "thorough"))]
+
 LEVEL = {
-    "C01": "other", "C02": "other", "C03": "other", "C04": "other", "C09": "other", "C15": "other", "C11": "other", "C12": "other",
+    "C01": "other", "C02": "other", "C03": "other", "C04": "other", "C09": "other", "C15": "other", "C11": "other", "C12": "other", "C14": "other",
 }
